@@ -24,6 +24,27 @@ CHECKS['C16'] = dict(
     note='value domain = the Python types the readers produce; float32 NaN payload quieting by the CPU is excluded; bytes payloads of STRING that are valid UTF-8 read back as str (known finding, counterexample theorem); correspondence is sampled.',
     design='§5 C16')
 
+CHECKS['C04'] = dict(
+    technique='Lean 4 theorems about the definition-loader model (first-wins / last-wins merges, stable size order, fixed-before-variable, masks) + kernel-checked facts regenerated from /repo + exhaustive differential load of all bundled definition sets + generated sets against a naive oracle',
+    text='C04 theorems prove for every method/property list: the merge of sections is keepFirst / keepLast of the concatenation, the exposed list is a size-sorted stable permutation of the filtered list, every variable-size method follows every fixed-size one, internal lists are mask-selected sublists, entity ids are 1-based positions; Generated facts (masks, flag values, INFINITY, default header, SIMPLE_TYPES) are re-extracted from the live code and re-checked by `decide`. The loader model is tied to the real Definitions() exhaustively on all bundled sets (XML trees in, full views compared) and on generated sets, where a third naive implementation of the stated rules is the oracle.',
+    note='lxml parsing is external (the harness parses with its own options); interface traversal order (depth-first, declaration order) is model code exercised by the correspondence, not a separate theorem; <Default> values are modelled only as accepted/refused.',
+    design='§5 C04')
+CHECKS['C05'] = dict(
+    technique='Lean 4 invariant/frame theorems over the world model (step_frame, step_wf, play_wf, entityProperty_lww, player_id_base) + differential play of generated histories in 4 dialects (world compared after every packet) + recordings through the model as independent decoder',
+    text='C05 theorems: every packet changes at most the entity it addresses (all dialects, all packets, failing or not); the id-table invariant holds in every reachable world; a property update stores exactly the decoded value under that name (dict laws give last-writer-wins per property); the base-player id is reported. The world model is tied to the real players by generated histories (model vs implementation after each packet, and against a plain dict LWW interpreter) and by the final worlds of real recordings.',
+    note='the LWW statement over whole histories is the composition of the per-step theorems and the dict/table laws (not one closed theorem); correspondence is sampled; recording controller via the documented _get_controller/_get_definitions extension points.',
+    design='§5 C05')
+CHECKS['C06'] = dict(
+    technique='Lean 4 theorems: Python slice-assignment semantics, leaf operations and descent steps as List.set / dict assignment, frame lemmas + differential play of generated nested-operation sequences against plain list/dict operations',
+    text='C06 theorems give the semantics of every step of a nested update in the model as ordinary list/dict operations (slice with all clamping cases, element set, value-less set, dict field set, descent = List.set/dictSet of the updated child, stop conditions) and that nothing else changes. The model is tied to NestedProperty.read_and_apply by generated op sequences (depth 1..5, all slice pairs) compared after every packet, with the generator applying the same operations to plain Python lists/dicts as oracle.',
+    note='partial: the closed-form bit-level encoder/decoder round trip for whole paths is not a theorem (each field read is covered by C17.get_pending); the payload-length fix (32-bit) is part of the modelled code.',
+    design='§5 C06')
+CHECKS['C08'] = dict(
+    technique='Lean 4 theorems position_spec / player_position_{set,copy,unknown_ignored,zero} / pose_frame + differential play of generated position histories + recordings',
+    text='C08 theorems state outright what Position and the three PlayerPosition cases do to the addressed entity and that no other entity changes; defaults before the first packet. Tied to the real players by generated interleavings (ids equal/unequal/zero/unknown, arbitrary float bit patterns) compared after each packet and against a dict id -> last pose.',
+    note='floats are bit patterns (NaNs compared as a class); aliasing of Vector3 objects between entities cannot exist in the model and would surface as a disagreement.',
+    design='§5 C08')
+
 PENDING_REASON = 'check not built yet in this revision (planned: see DESIGN.md §5); not claimed until its theorem + correspondence run on the unchanged tree'
 
 
